@@ -16,7 +16,7 @@ RULE = ('case = one rectangular float table (0-10 rows, 1-3 columns, distinct in
         'and nona(value, edge) are sampled (pairs exhaustive to length 6 in the thorough tier). Oracle, from the property text: '
         'plain loops recompute which NaNs lie within `limit` of an observation, which rows are all-NaN / leading, the tail rule of '
         'ffill_na/ffill_0; lists must equal applying the real single methods one after another; ndarray result == pandas result '
-        'values; argument unchanged; non-NaN cells unchanged. non-trivial = data with both NaN and non-NaN cells; distinct by full case. Every argument is an object owned by the caller: the method object of a case is built once, shared by all its calls (forms in a rotated order) and re-read after each call; stream S (500) applies ONE method list / tuple object to 2-4 different inputs in a row (half of them starting with nona / fnna), each result judged on its own. Kinds that must not matter are varied in the random streams: finite values (integers, half-integers, 0, negatives, 2^40; carried as 2v), constants as int / float / np.float64, index = RangeIndex / dates 1698-2248 / intraday sub-second stamps / text labels, Series name, column labels (text, ints, duplicates, tuples), index name, positional vs keyword call, list / tuple / scalar method, dict / list of series, int64 and float32 data, 101-257 rows with limits up to 1000')
+        'values; argument unchanged; non-NaN cells unchanged. non-trivial = data with both NaN and non-NaN cells; distinct by full case. Every argument is an object owned by the caller: the method object of a case is built once, shared by all its calls (forms in a rotated order) and re-read after each call; stream S (500) applies ONE method list / tuple object to 2-4 different inputs in a row (half of them starting with nona / fnna), each result judged on its own. Kinds that must not matter are varied in the random streams: finite values (integers, half-integers, 0, negatives, 2^40; carried as 2v), constants as Python int / float and numpy scalars of every width (float16/32/64, int8/16/32/64), index = RangeIndex / dates 1698-2248 / intraday sub-second stamps / nanosecond stamps 250 ns apart / text labels, Series name, column labels (text, ints, duplicates, tuples), index name, positional vs keyword call, list / tuple / scalar method, dict / list of series, int64 and float32 data, 101-257 rows with limits up to 1000')
 EXPLANATION = ('theorems C12_* (coq/props/C12.v) hold for vectors and frames of every length and NaN pattern, every method list and '
                'every limit: fill exactly within limit, constants, fold over method lists, nona / fnna / ffill_na / ffill_0, nona edge, '
                'columns of a frame behave as vectors, rows/labels/non-NaN cells preserved. pandas\' own ffill/bfill/fillna are modelled; '
@@ -74,6 +74,7 @@ def impl_setup():
     import numpy as np, pandas as pd
     from pyg_base import df_fillna, nona
 
+NS0 = 1577836800 * 10 ** 9 + 789                            # 2020-01-01 00:00:00.000000789 in ns; labels are 250 ns apart
 HOUR0 = datetime.datetime(2020, 1, 1, 0, 0, 0, 250000)      # intraday index: whole hours from here (sub-second offset)
 IDX = 'range'
 def _index(case):
@@ -82,6 +83,8 @@ def _index(case):
         i = pd.DatetimeIndex([datetime.datetime.fromordinal(d) for d in case['labels']])
     elif case['idx'] == 'hour':
         i = pd.DatetimeIndex([HOUR0 + datetime.timedelta(hours=h) for h in case['labels']])
+    elif case['idx'] == 'ns':      # nanosecond resolution, several rows inside one microsecond
+        i = pd.DatetimeIndex([pd.Timestamp(NS0 + 250 * l) for l in case['labels']])
     elif case['idx'] == 'str':
         i = pd.Index(['r%05d' % l for l in case['labels']])
     if i is not None and case.get('iname'):
@@ -116,6 +119,9 @@ def canon_cell(v):
 def canon_label(l):
     if IDX == 'str':
         return int(l[1:])
+    if IDX == 'ns':
+        q, r = divmod(pd.Timestamp(l).value - NS0, 250)
+        return q if r == 0 else 'offgrid:' + str(l)
     if IDX == 'hour':
         d = l - HOUR0
         q, r = divmod(d.days * 86400 * 10 ** 6 + d.seconds * 10 ** 6 + d.microseconds, 3600 * 10 ** 6)
@@ -148,6 +154,9 @@ def py_method(m):
     c = m[1]
     if CFORM == 'float': return float(c)
     if CFORM == 'np': return np.float64(c)
+    if CFORM in ('f16', 'f32'): return {'f16': np.float16, 'f32': np.float32}[CFORM](c)      # 0, 7, -3, 0.5, -1.5 are exact in every width
+    if CFORM in ('i8', 'i16', 'i32', 'i64') and c == int(c):
+        return {'i8': np.int8, 'i16': np.int16, 'i32': np.int32, 'i64': np.int64}[CFORM](int(c))
     return int(c) if c == int(c) else float(c)
 def py_methods(case):
     ms = [py_method(m) for m in case['methods']]
@@ -423,7 +432,7 @@ def mk(rows, k, idx, rng=None, **kw):
     n = len(rows)
     if idx != 'range':
         # dates: also far past / far future (1698, 1970, 2248); 'hour': intraday stamps with a sub-second offset; 'str': text labels
-        d = (DAY0 if rng is None else rng.choice([DAY0, DAY0, 719163, 620000, 821000])) if idx == 'date' else (0 if rng is None else rng.choice([0, -50, 100000] if idx == 'hour' else [0, 100000]))
+        d = (DAY0 if rng is None else rng.choice([DAY0, DAY0, 719163, 620000, 821000])) if idx == 'date' else (0 if rng is None else rng.choice([0, -50, 100000] if idx in ('hour', 'ns') else [0, 100000]))
         labels = []
         for i in range(n):
             d += 1 if rng is None else rng.choice([1, 1, 1, 2, 3, 7])
@@ -433,7 +442,8 @@ def mk(rows, k, idx, rng=None, **kw):
     return dict(kw, k=k, rows=rows, labels=labels, idx=idx)
 
 RLIMITS = [None, 1, 2, 3, 5, 10]
-IDXS = ['range', 'date', 'date', 'hour', 'str']
+IDXS = ['range', 'date', 'date', 'hour', 'str', 'ns']
+CFORMS = ['float', 'np', 'f32', 'f16', 'i8', 'i16', 'i32', 'i64']      # numeric method as a Python or numpy scalar of any width
 def decorate(rng, c):
     """names, spellings and call forms that must not matter"""
     r = rng.random
@@ -441,7 +451,7 @@ def decorate(rng, c):
     if r() < 0.5: c['cols'] = rng.choice([['a', 'b', 'c'], ['z', 'y', 'x'], [10, 5, 7], ['a', 'a', 'b'], [('p', 1), ('p', 2), ('q', 1)]])[:c['k']]
     if r() < 0.3 and c['idx'] != 'range': c['iname'] = rng.choice(['date', 't'])
     if c['kind'] == 'fill':
-        if r() < 0.4: c['cform'] = rng.choice(['float', 'np'])
+        if r() < 0.6: c['cform'] = rng.choice(CFORMS)
         if r() < 0.3: c['positional'] = True
         if r() < 0.15 and c['methods']: c['mlist'] = 'tuple'
     if r() < 0.15: c['loop'] = True
@@ -493,7 +503,8 @@ def gen_cases(rng, tier):
             for m in SINGLES:
                 for lim in (LIMITS if (not quick or n <= 5) else [None, 1 + t % 3]):      # quick: length 6 with None and one rotating limit
                     t += 1
-                    cases.append(mk(vec_rows(mask), 1, 'date' if t % 3 == 0 else 'range', kind='fill', methods=[m], limit=lim, mlist=(t % 5 == 0)))
+                    cases.append(mk(vec_rows(mask), 1, 'date' if t % 3 == 0 else 'range', kind='fill', methods=[m], limit=lim, mlist=(t % 5 == 0),
+                                    **({'cform': (['int'] + CFORMS)[t % 9]} if isinstance(m, list) else {})))
     # A2. +-inf are non-NaN cells: every pattern over {NaN, finite, +inf, -inf} of length 0..4 (0..5 thorough)
     for n in range(0, 5 if quick else 6):
         for pat in itertools.product('NVPM', repeat=n):
@@ -560,7 +571,7 @@ def gen_cases(rng, tier):
             it['rot'] = rng.randrange(4)
             items.append(it)
         cases.append(dict(kind='seq', items=items, methods=ms, limit=rng.choice(RLIMITS), mlist=rng.choice([True, True, 'tuple']) if len(ms) == 1 else rng.choice([False, False, 'tuple']),
-                          cform=rng.choice(['int', 'float']), k=items[0]['k'], rows=[], labels=[], idx='range'))
+                          cform=rng.choice(['int'] + CFORMS), k=items[0]['k'], rows=[], labels=[], idx='range'))
     # D. nona(value, edge)
     for n in range(0, 6):
         for mask in itertools.product([False, True], repeat=n):
